@@ -90,3 +90,82 @@ pub fn run(ctx: &mut Ctx) {
         ctx.call("agree", inp, agree_call);
     }
 }
+
+// ---------------------------------------------------------------------------
+// C19, ROS 2 part: dedicated = periodic(Q = P) = constrained(Q = D = P) for all six
+// analyses; event source = FIFO on a dedicated processor
+
+use crate::drivers::ros2::call_ros2;
+
+fn ros_agree_call(inp: &Value) -> Value {
+    let rs: Vec<Value> = inp["calls"]
+        .as_array()
+        .unwrap()
+        .iter()
+        .map(|c| if c.get("policy").is_some() { call_rta(c) } else { call_ros2(c) })
+        .collect();
+    json!({ "rs": rs })
+}
+
+pub fn run_ros2(ctx: &mut Ctx) {
+    let n = if ctx.thorough { 40000 } else { 4000 };
+    let (tmax, limmax) = if ctx.thorough { (24, 150) } else { (10, 60) };
+    for i in 0..n {
+        let tm = if i % 2 == 0 { tmax } else { 5 };
+        let mut o = if i % 4 == 0 { gen::Opts::all(tm) } else { gen::Opts::basic(tm) };
+        o.allow_never = false;
+        let nt = ctx.rng.gen_range(1..=3);
+        let ts: Vec<Value> = (0..nt).map(|_| gen_task(&mut ctx.rng, &o, 3, true)).collect();
+        if gen::is_empty_model(&ts[0]["a"]) {
+            continue;
+        }
+        let lim = ctx.rng.gen_range(1..=limmax);
+        let rbf = |t: &Value| json!({"dm": {"k": "rbf", "a": t["a"], "c": {"k": "scalar", "c": t["C"]}}});
+        let agg = |v: &[Value]| {
+            let parts: Vec<Value> = v.iter().map(|t| json!({"k": "rbf", "a": t["a"], "c": {"k": "scalar", "c": t["C"]}})).collect();
+            json!({"dm": {"k": "agg", "of": parts}})
+        };
+        let k = ctx.rng.gen_range(1..=5u64);
+        let sups = [json!({"k": "dedicated"}), json!({"k": "periodic", "Q": k, "P": k}),
+                    json!({"k": "constrained", "Q": k, "D": k, "P": k})];
+        let b = ctx.rng.gen_range(0..=3u64);
+        let wl: Vec<Value> = ts
+            .iter()
+            .enumerate()
+            .map(|(j, t)| {
+                let kd = ["timer", "unknown", "polled", "es"][(i + j) % 4];
+                json!({"t": kd, "p": j as i64, "R": t["C"].as_u64().unwrap() + (i as u64 % 7), "a": t["a"],
+                       "c": {"k": "scalar", "c": t["C"]}})
+            })
+            .collect();
+        let base: Value = match i % 7 {
+            0 => json!({"op": "ros2_es", "lim": lim, "own": agg(&ts)}),
+            1 => json!({"op": "ros2_timer", "lim": lim, "own": rbf(&ts[0]), "hp": agg(&ts[1..]), "B": b}),
+            2 => json!({"op": "ros2_pp", "lim": lim, "own": rbf(&ts[0]), "others": agg(&ts[1..])}),
+            3 => {
+                let c = ts[0]["C"].as_u64().unwrap();
+                let pf = json!({"a": ts[0]["a"], "C": 2});
+                let fl = json!({"a": ts[0]["a"], "C": c + 2});
+                json!({"op": "ros2_chain", "lim": lim, "last": rbf(&ts[0]), "prefix": rbf(&pf), "full": rbf(&fl), "others": agg(&ts[1..])})
+            }
+            4 => json!({"op": "ros2_rr", "lim": lim, "workload": wl, "sub": [1]}),
+            5 => json!({"op": "ros2_bw", "lim": lim, "workload": wl, "sub": if nt >= 2 { json!([2, 1]) } else { json!([1]) }}),
+            _ => {
+                // event source = FIFO analysis on a dedicated processor
+                let es = json!({"op": "ros2_es", "supply": {"k": "dedicated"}, "lim": lim, "own": agg(&ts)});
+                let fifo = json!({"policy": "fifo", "lim": lim, "tua": {"C": 0}, "others": ts, "B": 0});
+                ctx.call("agree", json!({"family": "event_source_eq_fifo_on_dedicated", "calls": [es, fifo]}), ros_agree_call);
+                continue;
+            }
+        };
+        let calls: Vec<Value> = sups
+            .iter()
+            .map(|s| {
+                let mut c = base.clone();
+                c["supply"] = s.clone();
+                c
+            })
+            .collect();
+        ctx.call("agree", json!({"family": "dedicated_eq_full_budget_reservations", "calls": calls}), ros_agree_call);
+    }
+}
